@@ -6,8 +6,8 @@
 
     pair                              models                                   theorem (file)
     ------------------------------------------------------------------------------------------------------
-    1 βhash                           Sig/Weak.v (C04) / Wsync/Weak.v (C11)    weak_hash_models_agree_lemma,
-                                                                               weak_hash_loops_differ_beyond_u32_lemma
+    1 βhash                           Sig/Weak.v (C04) / Wsync/Weak.v (C11)    weak_hash_models_agree_lemma (every block
+                                                                               length), weak_hash_loops_agree_beyond_u32_example
                                                                                (ModelsAgreeHashProofs)
     2 CreateSignature                 Sig/Sign.v (C04) / Wsync/Sign.v (C11)    create_signature_models_agree_lemma
                                                                                (ModelsAgreeHashProofs)
@@ -41,14 +41,27 @@
                                                                                (ModelsAgreeResumeProofs)
       proto3 decoding tables          Patch/Reinterp.v (C17, C01) /            decoders_agree_lemma
                                       Patch/Malformed.v (C10)                  (ModelsAgreeMalformedProofs)
-    7 block validation                Val/VPool.v only (no re-definition);     validate_file_models_agree_lemma,
-      doOne                           Sig/Validate.v (C04) / Val/FileVal.v     group_models_agree_lemma,
-                                      (C05)                                    validate_file_differs_on_longer_file_lemma
+    7 block validation                Val/VPool.v only (no re-definition);     validate_file_models_agree_lemma (every
+      doOne                           Sig/Validate.v (C04) / Val/FileVal.v     content on disk), group_models_agree_lemma,
+                                      (C05)                                    validate_file_longer_file_example
                                                                                (ModelsAgreeValidateProofs)
 
-    8 ComputeHashInfo                 Sig/HashInfo.v (C04) /                   hash_info_models_agree_lemma,
-                                      Patch/Malformed.v (C10)                  hash_info_models_differ_on_missing_hashes_lemma
+    8 ComputeHashInfo                 Sig/HashInfo.v (C04) /                   hash_info_models_agree_lemma (every input,
+                                      Patch/Malformed.v (C10)                  the code as it is), hash_info_missing_hashes_example
                                                                                (ModelsAgreeHashInfoProofs)
+
+    Deleted because they became FALSE when three C04 model files were repaired to follow the
+    current Go code (the differences had been found by this very table):
+      weak_hash_loops_differ_beyond_u32_lemma, weak_hash_models_differ_beyond_u32_lemma (pair 1):
+        Sig/Weak.v now models the wrapping [uint32] subtraction ([sub32]); agreement holds for every
+        block length and [weak_hash_models_agree] lost its "at most 2^32 bytes" hypothesis;
+      validate_file_differs_on_longer_file_lemma (pair 7): Sig/Validate.v now orders the bounds of
+        the size wound (repo commit ccb6315); [validate_file_models_agree] lost its "not longer
+        than signed" hypothesis;
+      hash_info_models_differ_on_missing_hashes_lemma (pair 8): Sig/HashInfo.v now returns [HiErr]
+        for missing hashes (repo commit 6a06397), [HiPanic] no longer exists;
+        [hash_info_models_agree] equates the outcome classes for every input.
+    The inputs of the three former counterexamples are kept as examples of agreement.
 
     Duplicates seen and NOT treated here (each still tied to Go by its own correspondence):
     Patch/Malformed.v [read_signature] vs Sig/SigFile.v [read_signature]; Patch/Malformed.v [analyze] / [optimize_pass] vs
